@@ -262,12 +262,19 @@ func (mp *mergeProcessor) loadComposites(
 }
 
 func (mp *mergeProcessor) mergeComposites(ctx context.Context) error {
+	// A block that is reachable through more than one branch of the new blocks has been queued
+	// once per branch. It is merged once, at its first position: ahead of all of its descendants.
+	merged := make(map[cid.Cid]struct{}, mp.composites.Len())
 	for e := mp.composites.Front(); e != nil; e = e.Next() {
 		block := e.Value.(*coreblock.Block)
 		link, err := block.GenerateLink()
 		if err != nil {
 			return err
 		}
+		if _, ok := merged[link.Cid]; ok {
+			continue
+		}
+		merged[link.Cid] = struct{}{}
 		err = mp.processBlock(ctx, block, link)
 		if err != nil {
 			return err
